@@ -378,7 +378,12 @@ extern "C" int LLVMFuzzerTestOneInput(const uint8_t* data, size_t size) {
         replay_dir = rd ? rd : ".";
     }
     vh::Case c = vh::decode_bytes(T->name, T->spec, data, size);
+    static vh::CrashFile crash;
+    static bool crash_init = false;
+    if (!crash_init) { crash_init = true; const char* cf = std::getenv("VRT_CRASH_FILE"); if (cf) crash.open(std::string(cf) + "." + std::to_string((long)getpid())); }
+    if (crash.map) crash.put(vh::to_text(c));
     vh::Outcome o = T->run(c);
+    if (crash.map) crash.clear();
     if (o.res.violation) {
         char name[64]; std::snprintf(name, sizeof name, "/fuzz-%s-%016llx.case", T->name.c_str(), (unsigned long long)vh::fnv(vh::to_text(c)));
         std::ofstream rf(replay_dir + name); rf << vh::to_text(c); rf.close();
